@@ -35,6 +35,9 @@ def run(ctx):
     ctx.do(rule_constants)
     ctx.do(rule_wiring)
     ctx.do(rule_determinism)
+    # the id is computed by the base constructor: every contributing property must be in place by then
+    from .C01 import rule_inner_written_by_constructor
+    ctx.do(rule_inner_written_by_constructor, rule_id="C06.wiring")
     # the id is the UUIDv5 of the RFC 8785 form of the contributing properties: every structural clause of the canonical
     # form (C16) is a necessary condition of "the same id as every other implementation"
     from . import C16
